@@ -487,9 +487,14 @@ class IMAPClientCommand:
         Awaits the `ready` event. No matter what happens, we set the
         command to be completed before exiting.
         """
+        queued = False
         try:
-            mbox.task_queue.put_nowait(self)
-            await self.ready.wait()
+            # (A mailbox that is gone has nobody left to look at its queue.)
+            #
+            if not mbox.deleted:
+                mbox.task_queue.put_nowait(self)
+                queued = True
+                await self.ready.wait()
             if self.error is not None:
                 raise self.error
             # NOTE: `\Noselect` as well, for commands that work on the
@@ -510,8 +515,14 @@ class IMAPClientCommand:
             yield
         finally:
             self.completed = True
-            if mbox.task_queue:
-                mbox.task_queue.task_done()
+            if queued and mbox.task_queue:
+                try:
+                    mbox.task_queue.task_done()
+                except ValueError:
+                    # (the management task emptied the queue when the
+                    # mailbox's folder disappeared)
+                    #
+                    pass
 
     ##################################################################
     #
